@@ -42,6 +42,12 @@ TABLE = {
     "../seeded/C20-4/patch.diff": ("contracts.c15", "lower_identifier", None),
     "../seeded/C20-3/patch.diff": ("contracts.c20", "create_output_anchors", None),
     "../seeded/C09-1/patch.diff": ("contracts.c09", "_try_extract_const_value", None),
+    "../seeded/C08-2/patch.diff": ("contracts.c08", "rebuild_from_placements", "footprints (2, 2)"),
+    "../seeded/C09-6/patch.diff": ("contracts.c09", "_trim_power_poles", "small"),
+    "../seeded/C09-5/patch.diff": ("contracts.c15", "lower_function_call_inline", None),
+    "../seeded/C03-5/patch.diff": ("contracts.c03", "lower_mem_decl", None),
+    "../seeded/C13-6/patch.diff": ("contracts.c03", "_coerce_to_signal_type", None),
+    "../seeded/C14-5/patch.diff": ("contracts.c14", "_infer_bundle_literal_type", "elements: bun('a',); siga; "),
     "../seeded/C01-4/patch.diff": ("contracts.c07", "_configure_decider", "operation = <"),
 }
 RUNNER = r'''
